@@ -26,6 +26,10 @@ CONSTANTS
  DevToolReaps = FALSE
  DevEscapeFastPath = TRUE
  DevEtcdDeletePrefix = FALSE
+ DevStaleNextOffset = FALSE
+ DevGrowSameCountOk = FALSE
+ DevToolPersistsDefault = FALSE
+ DevToolGroupDefaults = FALSE
 INIT Init
 NEXT NextStore
 INVARIANTS C17_SameObs
